@@ -102,7 +102,8 @@ pub fn process_cpu_secs(pid: u32) -> Option<f64> {
 // ------------------------------------------------------------------------------------------
 pub enum Isolated {
     Done(Outcome),
-    Stalled { at_op: usize },
+    /// `probe`: what beff-core's emptiness probe showed last about the call that never returned
+    Stalled { at_op: usize, probe: (u64, u64) },
     Crashed { at_op: usize, status: String },
 }
 
@@ -130,15 +131,26 @@ pub fn exec_isolated_masked(run: &Run, limit: Duration, mask: Option<&str>) -> I
     let mut child = cmd.arg("exec").arg(&path).arg("--progress").stdin(Stdio::null()).stdout(Stdio::piped()).stderr(Stdio::null()).spawn().expect("spawn exec child");
     let stdout = child.stdout.take().unwrap();
     let last_op = Arc::new(AtomicU64::new(0));
+    let probe_steps = Arc::new(AtomicU64::new(0));
+    let probe_negs = Arc::new(AtomicU64::new(0));
     let result: Arc<Mutex<Option<Outcome>>> = Arc::new(Mutex::new(None));
     let done = Arc::new(AtomicBool::new(false));
     let (l2, r2, d2) = (last_op.clone(), result.clone(), done.clone());
+    let (ps2, pn2) = (probe_steps.clone(), probe_negs.clone());
     let reader = std::thread::spawn(move || {
         for line in BufReader::new(stdout).lines() {
             let Ok(line) = line else { break };
             if let Some(n) = line.strip_prefix("op ") {
                 if let Ok(n) = n.trim().parse::<u64>() {
                     l2.store(n, Ordering::SeqCst);
+                    ps2.store(0, Ordering::SeqCst);
+                    pn2.store(0, Ordering::SeqCst);
+                }
+            } else if let Some(p) = line.strip_prefix("probe ") {
+                let mut it = p.split_whitespace().filter_map(|x| x.parse::<u64>().ok());
+                if let (Some(a), Some(b)) = (it.next(), it.next()) {
+                    ps2.store(a, Ordering::SeqCst);
+                    pn2.store(b, Ordering::SeqCst);
                 }
             } else if let Some(j) = line.strip_prefix("RESULT ") {
                 if let Ok(o) = serde_json::from_str::<Outcome>(j) {
@@ -171,7 +183,7 @@ pub fn exec_isolated_masked(run: &Run, limit: Duration, mask: Option<&str>) -> I
     let _ = std::fs::remove_file(&path);
     let at_op = last_op.load(Ordering::SeqCst) as usize;
     if stalled {
-        return Isolated::Stalled { at_op };
+        return Isolated::Stalled { at_op, probe: (probe_steps.load(Ordering::SeqCst), probe_negs.load(Ordering::SeqCst)) };
     }
     let taken = result.lock().unwrap().take();
     match taken {
@@ -549,7 +561,7 @@ pub fn check(cfg: &CheckCfg) -> i32 {
                 let info = json!({"project": run.project.id, "label": run.label, "ops": run.ops.len()});
                 absorb(&mut agg, idx, &info, out);
             }
-            Isolated::Stalled { at_op } => {
+            Isolated::Stalled { at_op, probe } => {
                 let class = "hang".to_string();
                 let mut r = run.clone();
                 if r.variants.is_empty() {
@@ -557,6 +569,17 @@ pub fn check(cfg: &CheckCfg) -> i32 {
                 }
                 if known_alias_cycle(&mut agg, &findings, &r, "never returns") {
                     continue;
+                }
+                // KF-C04-26, identified by call site: the probe in beff-core shows the call inside
+                // the branching emptiness decision, entered with many negated atoms
+                if crate::session::probe_says_exponential(probe) {
+                    if let Some(k) = findings.iter().find(|k| k.status == "open" && k.property == "C04" && k.signature.get("class").and_then(|x| x.as_str()) == Some("exponential-emptiness-decision")) {
+                        let line = format!("KNOWN-FINDING: property=C04 {} (e.g. run {}: no answer within 30 s of CPU, {} steps so far, {} negated atoms) [{}]", k.what_fails, idx, probe.0, probe.1, k.id);
+                        agg.kf_lines.entry(k.id.clone()).or_insert((line, 0)).1 += 1;
+                        *agg.stats.known_findings.entry(k.id.clone()).or_insert(0) += 1;
+                        agg.results += 1;
+                        continue;
+                    }
                 }
                 let r = minimize_isolated(&r, true);
                 let v = Violation { property: "C04".into(), class: class.clone(), detail: json!({"stalled_at_op": at_op, "limit_s": 30}), op_index: at_op };
@@ -1037,9 +1060,10 @@ pub fn replay_file(path: &str, quiet: bool) -> i32 {
     }
     let hit = match exec_isolated(&run, Duration::from_secs(60)) {
         Isolated::Done(out) => out.violations.iter().find(|v| v.property == want_prop && (class.is_empty() || v.class == class)).map(|v| (v.property.clone(), v.class.clone())),
-        Isolated::Stalled { .. } => {
-            if class == "hang" || class.is_empty() {
-                Some(("C04".to_string(), "hang".to_string()))
+        Isolated::Stalled { probe, .. } => {
+            let seen = if crate::session::probe_says_exponential(probe) { "exponential-emptiness-decision:hang" } else { "hang" };
+            if class == seen || class.is_empty() {
+                Some(("C04".to_string(), seen.to_string()))
             } else {
                 None
             }
